@@ -38,7 +38,7 @@ ASSUMPTIONS = [
     "cache key injective (C09), restore exact (C06), atomic per-target steps",
 ]
 
-FAMILIES_QUICK = [("edits", 3), ("wipe", 5), ("lostblob", 5), ("dirs", 3), ("alias", 2), ("aliaswipe", 4), ("nocache", 4), ("tamper", 2), ("disabled", 2), ("taint", 2), ("collector", 3), ("run", 5)]
+FAMILIES_QUICK = [("edits", 3), ("wipe", 5), ("lostblob", 5), ("dirs", 3), ("alias", 2), ("aliaswipe", 4), ("nocache", 4), ("tamper", 2), ("disabled", 2), ("taint", 2), ("collector", 3), ("run", 5), ("fanout", 3)]
 FAMILIES_THOROUGH = [(f, n * 15) for f, n in FAMILIES_QUICK]
 
 
@@ -70,7 +70,10 @@ def run(ctx):
                             "in separate workspaces and cache roots (wipe = fresh checkout with a warm cache / sources reverted; lostblob = chain with the "
                             "blob of the middle target lost and its workspace copy removed; dirs = directory outputs whose entry set follows the inputs, "
                             "tampered in place); families: " + ", ".join("%s x%d" % f for f in fams) +
-                            "; non-trivial = distinct history with >=2 builds, one executing and one with a hit (in the minimal universe)")
+                            "; collector = command-less target whose dir:: output is produced by its dependencies; run = `grog run` of generated binaries (one or two run "
+                            "targets, reverts, wipes); fanout = one cached dependency with a 600-file directory and several dependants re-running at once; every history "
+                            "ends with a mode-all build of everything in both universes (convergence); non-trivial = distinct history with >=2 builds, one executing "
+                            "and one with a hit (in the minimal universe)")
     grog = ctx.grog_binary()
     if not grog:
         return
